@@ -33,6 +33,9 @@ type C01Req struct {
 	BodyKind string  `json:"body"` // none | cl | chunked
 	BodyLen  int     `json:"body_len"`
 	Chunks   []int   `json:"chunks,omitempty"`
+	// Refused: the request is addressed to a host the proxy denies (403 from the proxy itself); whatever it carried,
+	// the requests behind it on the connection travel on as if it had not been there.
+	Refused bool `json:"refused,omitempty"`
 }
 
 type C01Case struct {
@@ -97,9 +100,10 @@ func getEnv() (*c01Env, error) {
 			}
 			e.proxies[name] = p
 		}
-		mk("direct", ProxyOpts{})
-		mk("upstream", ProxyOpts{Upstream: "http://" + e.upstream.Addr})
-		mk("mitm", ProxyOpts{MITM: true})
+		deny := []string{`^denied\.test$`}
+		mk("direct", ProxyOpts{DenyDomains: deny})
+		mk("upstream", ProxyOpts{Upstream: "http://" + e.upstream.Addr, DenyDomains: deny})
+		mk("mitm", ProxyOpts{MITM: true, DenyDomains: deny})
 		env = e
 	})
 	return env, envErr
@@ -232,6 +236,7 @@ func genC01(t *rapid.T) C01Case {
 				}
 			}
 		}
+		r.Refused = n > 1 && rapid.IntRange(0, 5).Draw(t, "refused") == 0
 		c.Reqs = append(c.Reqs, r)
 	}
 	c.Pipelined = rapid.Bool().Draw(t, "pipelined")
@@ -269,6 +274,9 @@ func (c *C01Case) build(e *c01Env, id int64) []sentReq {
 			}
 		case "mitm":
 			s.host = e.torigin.Addr
+		}
+		if r.Refused {
+			s.host = "denied.test:80"
 		}
 		target := r.Path + r.Query
 		if r.Abs {
@@ -392,6 +400,14 @@ func runC01once(e *c01Env, c C01Case) (fails []vstat.Failure) {
 			}
 			return nil, false
 		}
+		if reqs[i].spec.Refused {
+			if m.Status != 403 {
+				fails = append(fails, vstat.Failf(key("refused-status"), "request %d to a denied host: proxy answered %d, want 403", i, m.Status))
+				return m, false
+			}
+			// a refusal that ends the connection ends the history too
+			return m, !strings.EqualFold(m.First("Connection"), "close") && !reqs[i].spec.HTTP10
+		}
 		if m.Status != 200 {
 			fails = append(fails, vstat.Failf(respKey(c, reqs, i, "status"), "request %d (%s): proxy answered %d %s %q, want the origin's 200", i, reqs[i].spec.Method, m.Status, m.Reason, m.Body))
 			return m, false
@@ -448,7 +464,7 @@ func runC01once(e *c01Env, c C01Case) (fails []vstat.Failure) {
 		}
 		missing := false
 		for i := 0; i < nresp; i++ {
-			if recorded[reqs[i].vid] == nil {
+			if recorded[reqs[i].vid] == nil && !reqs[i].spec.Refused {
 				missing = true
 			}
 		}
@@ -462,6 +478,12 @@ func runC01once(e *c01Env, c C01Case) (fails []vstat.Failure) {
 	for i := 0; i < nresp; i++ {
 		s := reqs[i]
 		rr := recorded[s.vid]
+		if s.spec.Refused {
+			if rr != nil {
+				fails = append(fails, vstat.Failf(key("refused-forwarded"), "request %d to a denied host reached the next hop", i))
+			}
+			continue
+		}
 		if rr == nil {
 			fails = append(fails, vstat.Failf(respKey(c, reqs, i, "not-received"), "request %d got a 200 but the next hop has no record of it", i))
 			continue
@@ -648,7 +670,13 @@ func classifyC01(c C01Case) (bool, string, []string) {
 	cls := []string{"config-" + c.Config, fmt.Sprintf("reqs=%d", len(c.Reqs))}
 	nt := c.Config != "direct" || len(c.Reqs) >= 2
 	var shape []string
-	for _, r := range c.Reqs {
+	for i, r := range c.Reqs {
+		if r.Refused {
+			cls = append(cls, "refused-request")
+			if r.BodyKind != "none" && r.BodyLen > 0 && i < len(c.Reqs)-1 {
+				cls = append(cls, "refused-request-with-body-followed-by-another")
+			}
+		}
 		if r.BodyLen >= 4096 {
 			cls = append(cls, "body>=4KiB")
 			nt = true
